@@ -205,6 +205,7 @@ class Explorer:
         self.module_globals = {}
         self.class_mutables = {}
         self.known = {}
+        self.cases = {}
         self.symbols = {}  # name -> (kind, z3 const)
         self.path_obligations = []
         self.trace_stack = []
@@ -309,6 +310,7 @@ class Explorer:
             d = 0
             self.decisions.append(d)
         self.pos += 1
+        self.cases[label] = d
         return d
 
     def feasible(self, c):
@@ -438,6 +440,7 @@ class Explorer:
             except Exception:
                 out[name] = str(v)
         out["$decisions"] = list(self.decisions[: self.pos])
+        out["$cases"] = dict(self.cases)
         return out
 
     # ---- exploration
